@@ -28,53 +28,54 @@ type KnownPred struct {
 type StubFn func(ex *Exec, st *State, site ssa.Instruction, fn *ssa.Function, args []Value) Value
 
 type Exec struct {
-	Prog       *ssa.Program
-	ModPrefix  string // import path prefix of code under test (interpreted)
-	Outcomes   []Outcome
-	Vars       map[string]*smt.Term
-	VarOrder   []string
-	Unwind     int // max symbolic decisions per block per frame
-	MaxVisits  int
-	nextObj    int
-	globals    map[*ssa.Global]int
-	globalByID map[int]*ssa.Global
-	pdom       map[*ssa.Function][]*ssa.BasicBlock
-	Stubs      map[string]StubFn
-	Interp     map[string]bool // external functions interpreted from their SSA
-	Encoded    map[string]bool // functions whose bodies were executed
-	StubsUsed  map[string]int
-	Spawned    []string
-	initDone   map[*ssa.Package]bool
-	Trace      bool
-	opaqueSeq  int
-	Forks      int
-	Instrs     int
-	PermuteMaps bool
-	NoArrMaps  bool
-	GlobalInit map[string]func(ex *Exec, st *State) Value // models of package-level data of packages whose init is not run
-	Flags      map[string]bool
-	sched      *sched
-	syncIDs    map[string]int
-	inE2       bool
-	eqMemo     map[[2]interface{}]*smt.Term
-	OpenRGB    StubFn
-	RepoDir    string
-	fs         *fsModel
-	notExist   Value
-	curG       int         // goroutine currently executed by the scheduler (+1), 0 = harness main
-	protected  map[int]int // object id -> sync cell of the mutex that must be held to touch it
+	Prog                             *ssa.Program
+	ModPrefix                        string // import path prefix of code under test (interpreted)
+	Outcomes                         []Outcome
+	Vars                             map[string]*smt.Term
+	VarOrder                         []string
+	Unwind                           int // max symbolic decisions per block per frame
+	MaxVisits                        int
+	nextObj                          int
+	globals                          map[*ssa.Global]int
+	globalByID                       map[int]*ssa.Global
+	pdom                             map[*ssa.Function][]*ssa.BasicBlock
+	Stubs                            map[string]StubFn
+	Interp                           map[string]bool // external functions interpreted from their SSA
+	Encoded                          map[string]bool // functions whose bodies were executed
+	StubsUsed                        map[string]int
+	Spawned                          []string
+	initDone                         map[*ssa.Package]bool
+	Trace                            bool
+	opaqueSeq                        int
+	Forks                            int
+	Instrs                           int
+	PermuteMaps                      bool
+	NoArrMaps                        bool
+	GlobalInit                       map[string]func(ex *Exec, st *State) Value // models of package-level data of packages whose init is not run
+	Flags                            map[string]bool
+	sched                            *sched
+	syncIDs                          map[string]int
+	inE2                             bool
+	eqMemo                           map[[2]interface{}]*smt.Term
+	OpenRGB                          StubFn
+	RepoDir                          string
+	fs                               *fsModel
+	notExist                         Value
+	curG                             int          // goroutine currently executed by the scheduler (+1), 0 = harness main
+	protected                        map[int]int  // object id -> sync cell of the mutex that must be held to touch it
+	protectedRW                      map[int]bool // objects for which reads need the mutex as well
 	LedDevice, LedCapture, LedCancel Value
 	lastClock                        *smt.Term
 	ctxErr                           Value
-	ufMemo     map[string][]Value
-	DecodeFailKind *smt.Term
-	DecodedList    []decodedReg // values registered by verifrt.TOMLToken
-	WatcherChan Value
-	WatcherDone Value
-	Decoded    Value                                       // value registered by verifrt.TOMLBytes for the decoder stubs
-	Params     map[string]int
-	Known      []KnownPred
-	Notes      []string
+	ufMemo                           map[string][]Value
+	DecodeFailKind                   *smt.Term
+	DecodedList                      []decodedReg // values registered by verifrt.TOMLToken
+	WatcherChan                      Value
+	WatcherDone                      Value
+	Decoded                          Value // value registered by verifrt.TOMLBytes for the decoder stubs
+	Params                           map[string]int
+	Known                            []KnownPred
+	Notes                            []string
 }
 
 func NewExec(prog *ssa.Program, modPrefix string) *Exec {
